@@ -20,6 +20,7 @@ let hash_of kind : n -> n = fun k ->
     | 1 -> 7L
     | 2 -> Int64.unsigned_rem x 3L
     | 3 | 5 -> Int64.logand (Int64.logxor x (Int64.shift_right_logical x 32)) m32
+    | 6 -> Int64.add 0x20000008L (Int64.mul x 24L)     (* address of the Base2 subobject of pool object x (harness.cpp) *)
     | _ -> Int64.shift_right_logical x 28)
 
 let psz = n_of_string (if Array.length Sys.argv > 1 then Sys.argv.(1) else "8")
